@@ -30,7 +30,10 @@ def hand():
     pleaf = [Opt("lev", "int", 0, 2), Opt("level", "int", 0, 3), Opt("le", "str", 0, b"e")]
     pre = [Opt("net6", "sec", MULTI | TITLE, None, "-", pleaf), Opt("net", "sec", MULTI | TITLE, None, "-", pleaf),
            Opt("ne", "sec", 0, None, "-", pleaf + [Opt("subsec", "sec", MULTI, None, "-", pleaf), Opt("sub", "sec", MULTI, None, "-", pleaf)]),
-           Opt("n", "sec", MULTI, None, "-", pleaf), Opt("logfile", "str", 0, b"f"), Opt("log", "sec", 0, None, "-", pleaf)]
+           Opt("n", "sec", MULTI, None, "-", pleaf), Opt("logfile", "str", 0, b"f"), Opt("log", "sec", 0, None, "-", pleaf),
+           # the case rule of a by-title lookup is the section OPTION's flag, the one of names and of the parser's "same title"
+           # test the context's: a section option that carries NOCASE itself in a case-sensitive context, and the reverse
+           Opt("nc", "sec", MULTI | TITLE | NOCASE, None, "-", pleaf)]
     return [[Opt("top", "int", 0, 0), Opt("multi", "sec", MULTI, None, "-", inner), Opt("titled", "sec", MULTI | TITLE, None, "-", inner),
              Opt("single", "sec", 0, None, "-", inner)], pre]
 
@@ -211,6 +214,14 @@ def generate(rng, tier):
                     pass
                 kind = "GO" if leaf is not None else "GS"
                 queries.append((kind, path, steps, leaf, "wellformed"))
+                # the same path with a title in another letter case: the same section only where the section OPTION carries
+                # NOCASE (the by-title accessor's rule) - the context's flag is about names
+                flip = [k for k, (_n, q) in enumerate(steps) if q is not None and q[0] == "t" and q[1].swapcase() != q[1]]
+                if flip and rng.random() < 0.5:
+                    k = rng.choice(flip)
+                    st2 = list(steps)
+                    st2[k] = (steps[k][0], ("t", steps[k][1][1].swapcase()))
+                    queries.append((kind, render_path(st2, leaf, rng), st2, leaf, "wellformed"))
                 if rng.random() < 0.5:
                     for bk, bp in rng.sample(broken_variants(rng, path), 2):
                         queries.append((rng.choice(["GO", "GS"]), bp, None, None, bk))
